@@ -330,9 +330,12 @@ pub fn run(ctx: &mut Ctx) {
 
     // ---- infinite scores (1/distance of identical terms, ln of a zero similarity): all matrices up to 2x2 over
     // {1/4, 1, +inf} and over {1/4, -1/2, -inf} (the two signs are not mixed: inf - inf has no value)
-    for (tag, alphabet) in [("plus-infinity", [0.25f32, 1.0, f32::INFINITY]), ("minus-infinity", [0.25f32, -0.5, f32::NEG_INFINITY])] {
-        for r in 1..=2usize {
-            for c in 1..=2usize {
+    // ... and scores above 1 (a user-supplied similarity is not bounded by 1: counts, log-odds, information
+    // content): all matrices up to 3x3 over {1/2, 1, 2} - a scan for a maximum may not stop at the first 1
+    for (tag, alphabet) in [("plus-infinity", [0.25f32, 1.0, f32::INFINITY]), ("minus-infinity", [0.25f32, -0.5, f32::NEG_INFINITY]), ("above-one", [1.0f32, 2.0, 0.5])] {
+        let max_shape = if tag == "above-one" { 3usize } else { 2 };
+        for r in 1..=max_shape {
+            for c in 1..=max_shape {
                 let cells = r * c;
                 let total: u64 = 3u64.pow(cells as u32);
                 ctx.space(&format!("matrices/{tag}/{r}x{c}"), &format!("all {total} matrices of shape {r}x{c} over {alphabet:?}; id assignments as above"));
@@ -349,12 +352,12 @@ pub fn run(ctx: &mut Ctx) {
                             k /= 3;
                         }
                     }
-                    if m.iter().flatten().any(|v| v.is_infinite()) {
+                    if m.iter().flatten().any(|v| v.is_infinite() || *v > 1.0) {
                         ctx.nontrivial();
                     }
                     let lo: Vec<u32> = ids[..r].to_vec();
                     let hi: Vec<u32> = ids[4..4 + c].to_vec();
-                    for (a_ids, b_ids, what) in [(lo.clone(), hi.clone(), "infinite scores: A below B"), (ids[4..4 + r].to_vec(), ids[..c].to_vec(), "infinite scores: A above B")] {
+                    for (a_ids, b_ids, what) in [(lo.clone(), hi.clone(), "scores beyond [0, 1]: A below B"), (ids[4..4 + r].to_vec(), ids[..c].to_vec(), "scores beyond [0, 1]: A above B")] {
                         ctx.exec();
                         ctx.validated();
                         ctx.transitions(27);
@@ -692,6 +695,212 @@ pub fn run(ctx: &mut Ctx) {
             }
         }
     }
+    // ---- sets that reach the comparison through every way a set can come about: constructed, grown by Extend,
+    // filtered in place or into a new set, derived from a record. The property is about the set as it is (what
+    // iter() hands out); which route produced it must not matter.
+    {
+        use crate::model::Kind;
+        use hpo::annotations::AnnotationId;
+        TWIN.with(|t| *t.borrow_mut() = None);
+        let mut f4 = Facts::default();
+        f4.version = (2024, 2, 29);
+        f4.terms.push(Facts::term(1, "All"));
+        f4.terms.push(Facts::term(118, "Phenotypic abnormality"));
+        f4.terms.push(Facts::term(12823, "Clinical modifier"));
+        f4.edges.push((118, 1));
+        f4.edges.push((12823, 1));
+        // pool: two nested phenotype terms, a third one, an obsolete term with a replacement, one without, a modifier
+        let pool: [u32; 6] = [200, 210, 300, 400, 410, 500];
+        for (id, parent) in [(200u32, 118u32), (210, 200), (300, 118), (500, 12823)] {
+            f4.terms.push(Facts::term(id, &format!("T{id}")));
+            f4.edges.push((id, parent));
+        }
+        let mut o1 = Facts::term(400, "obsolete T400");
+        o1.obsolete = true;
+        o1.replacement = Some(300);
+        f4.terms.push(o1);
+        let mut o2 = Facts::term(410, "obsolete T410");
+        o2.obsolete = true;
+        f4.terms.push(o2);
+        f4.anns.push(Facts::ann(Kind::Gene, 7, "G7", Some(210)));
+        f4.anns.push(Facts::ann(Kind::Gene, 7, "G7", Some(500)));
+        f4.anns.push(Facts::ann(Kind::Omim, 8, "D8", Some(200)));
+        f4.anns.push(Facts::ann(Kind::Omim, 8, "D8", Some(300)));
+        f4.anns.push(Facts::ann(Kind::Orpha, 9, "O9", Some(300)));
+        let depth = if thorough { 3 } else { 2 };
+        ctx.space("sets/construction-routes", &format!("decoded (v3) ontology: phenotype terms 200 > 210, 300, obsolete 400 (replaced by 300), obsolete 410, modifier 500; start = HpoSet::new over each of the 64 subsets of the pool, or Gene/OmimDisease/OrphaDisease::to_hpo_set; then every sequence of <= {depth} operations from {{extend by one pool term (6), remove_modifier, remove_obsolete, replace_obsolete, without_modifier, without_obsolete, with_replaced_obsolete, child_nodes}}; after every operation the set is compared (3 combiners, asymmetric by-id similarity) as A against a fixed set, as B, and with itself: the value must be the documented combination over the terms iter() hands out, and the similarity must be asked for exactly those pairs"));
+        match drive::from_bytes(&crate::encode::encode(&f4, &crate::encode::EncOpts::v(3))) {
+            Ok(Ok(ont4)) => {
+                #[derive(Clone)]
+                struct ById {
+                    calls: Rc<RefCell<Vec<(u32, u32)>>>,
+                }
+                fn by_id(a: u32, b: u32) -> f32 {
+                    (0.5f32).powi(1 + ((a as i32 / 10) * 5 + (b as i32 / 10) * 3) % 13)
+                }
+                impl Similarity for ById {
+                    fn calculate(&self, a: &HpoTerm, b: &HpoTerm) -> f32 {
+                        use hpo::annotations::AnnotationId;
+                        self.calls.borrow_mut().push((a.id().as_u32(), b.id().as_u32()));
+                        by_id(a.id().as_u32(), b.id().as_u32())
+                    }
+                }
+                #[derive(Clone, Copy, Debug)]
+                enum Op {
+                    Extend(u32),
+                    RemoveModifier,
+                    RemoveObsolete,
+                    ReplaceObsolete,
+                    WithoutModifier,
+                    WithoutObsolete,
+                    WithReplacedObsolete,
+                    ChildNodes,
+                }
+                let mut alphabet: Vec<Op> = pool.iter().map(|p| Op::Extend(*p)).collect();
+                alphabet.extend([Op::RemoveModifier, Op::RemoveObsolete, Op::ReplaceObsolete, Op::WithoutModifier, Op::WithoutObsolete, Op::WithReplacedObsolete, Op::ChildNodes]);
+                fn apply<'a>(ont4: &'a Ontology, s: HpoSet<'a>, op: Op) -> HpoSet<'a> {
+                    let mut s = s;
+                    match op {
+                        Op::Extend(x) => {
+                            s.extend(ont4.hpo(x));
+                            s
+                        }
+                        Op::RemoveModifier => {
+                            s.remove_modifier();
+                            s
+                        }
+                        Op::RemoveObsolete => {
+                            s.remove_obsolete();
+                            s
+                        }
+                        Op::ReplaceObsolete => {
+                            s.replace_obsolete();
+                            s
+                        }
+                        Op::WithoutModifier => s.without_modifier(),
+                        Op::WithoutObsolete => s.without_obsolete(),
+                        Op::WithReplacedObsolete => s.with_replaced_obsolete(),
+                        Op::ChildNodes => s.child_nodes(),
+                    }
+                }
+                let fixed_ids = [210u32, 400, 500];
+                // one comparison of `a` with `b`: the documented combination over what the two sets iterate
+                let compare = |a: &HpoSet, b: &HpoSet| -> V {
+                    let ia: Vec<u32> = a.iter().map(|t| t.id().as_u32()).collect();
+                    let ib: Vec<u32> = b.iter().map(|t| t.id().as_u32()).collect();
+                    if ia.len() != a.len() || ib.len() != b.len() {
+                        return Some(("HpoSet::len".into(), "differs from the number of terms iter() hands out".into(), format!("{ia:?} / {} and {ib:?} / {}", a.len(), b.len())));
+                    }
+                    let m: Vec<Vec<f32>> = ia.iter().map(|x| ib.iter().map(|y| by_id(*x, *y)).collect()).collect();
+                    for comb in COMBINERS {
+                        let want = reference(comb, &m, ia.len(), ib.len());
+                        let sim = ById { calls: Rc::new(RefCell::new(vec![])) };
+                        let got = a.similarity(b, sim.clone(), comb);
+                        let got2 = GroupSimilarity::new(comb, sim.clone()).calculate(a, b);
+                        if !close(got, want) || got2.to_bits() != got.to_bits() {
+                            return Some(("HpoSet::similarity".into(), "result is not the documented combination of the pairwise matrix of the sets' terms".into(), format!("{comb:?}: A = {ia:?}, B = {ib:?}: HpoSet::similarity {got}, GroupSimilarity::calculate {got2}, expected {want}")));
+                        }
+                        let mut calls = sim.calls.borrow().clone();
+                        calls.sort_unstable();
+                        calls.dedup();
+                        let mut want_calls: Vec<(u32, u32)> = ia.iter().flat_map(|x| ib.iter().map(move |y| (*x, *y))).collect();
+                        want_calls.sort_unstable();
+                        want_calls.dedup();
+                        if calls != want_calls {
+                            return Some(("GroupSimilarity::calculate".into(), "term similarity is not evaluated for exactly the pairs (a in A, b in B) of the sets' terms".into(), format!("A = {ia:?}, B = {ib:?}: calls {calls:?}")));
+                        }
+                    }
+                    None
+                };
+                // starts: 64 subsets through HpoSet::new, then the three record routes
+                let n_starts = 64 + 3;
+                for start in 0..n_starts {
+                    if !ctx.take() {
+                        continue;
+                    }
+                    let start_name = if start < 64 { format!("HpoSet::new({:?})", pool.iter().enumerate().filter(|(k, _)| start >> k & 1 == 1).map(|(_, p)| *p).collect::<Vec<_>>()) } else { ["Gene 7 to_hpo_set", "OmimDisease 8 to_hpo_set", "OrphaDisease 9 to_hpo_set"][start - 64].to_string() };
+                    let make = || -> Option<HpoSet> {
+                        use hpo::annotations::Disease;
+                        Some(match start {
+                            64 => ont4.gene(&7u32.into())?.to_hpo_set(&ont4),
+                            65 => ont4.omim_disease(&8u32.into())?.to_hpo_set(&ont4),
+                            66 => ont4.orpha_disease(&9u32.into())?.to_hpo_set(&ont4),
+                            _ => set(&ont4, &pool.iter().enumerate().filter(|(k, _)| start >> k & 1 == 1).map(|(_, p)| *p).collect::<Vec<_>>()),
+                        })
+                    };
+                    // all operation sequences up to the depth, every prefix checked (depth-first, rebuilt from the start)
+                    let mut seqs: Vec<Vec<usize>> = vec![vec![]];
+                    let mut frontier: Vec<Vec<usize>> = vec![vec![]];
+                    for _ in 0..depth {
+                        let mut next = vec![];
+                        for s in &frontier {
+                            for k in 0..alphabet.len() {
+                                let mut t = s.clone();
+                                t.push(k);
+                                next.push(t);
+                            }
+                        }
+                        seqs.extend(next.iter().cloned());
+                        frontier = next;
+                    }
+                    let mut found: V = None;
+                    let mut panicked: Option<String> = None;
+                    let mut n = 0u64;
+                    let mut shapes = std::collections::BTreeSet::new();
+                    for seq in &seqs {
+                        let res = guard(|| -> Result<V, ()> {
+                            let Some(mut a) = make() else { return Err(()) };
+                            for k in seq {
+                                a = apply(&ont4, a, alphabet[*k]);
+                            }
+                            let fixed = set(&ont4, &fixed_ids);
+                            if let Some(v) = compare(&a, &fixed) {
+                                return Ok(Some(v));
+                            }
+                            if let Some(v) = compare(&fixed, &a) {
+                                return Ok(Some(v));
+                            }
+                            Ok(compare(&a, &a))
+                        });
+                        n += 9;
+                        let ops: Vec<Op> = seq.iter().map(|k| alphabet[*k]).collect();
+                        match res {
+                            Ok(Ok(None)) => {
+                                shapes.insert(seq.len());
+                            }
+                            Ok(Ok(Some((site, sig, det)))) => {
+                                found = Some((site, sig, format!("{start_name} then {ops:?}: {det}")));
+                                break;
+                            }
+                            Ok(Err(())) => {
+                                found = Some(("Ontology::gene".into(), "record of a decoded file not found".into(), start_name.clone()));
+                                break;
+                            }
+                            Err(p) => {
+                                panicked = Some(format!("{start_name} then {ops:?}: {p}"));
+                                break;
+                            }
+                        }
+                    }
+                    ctx.execs(n);
+                    ctx.validateds(n);
+                    ctx.states(seqs.len() as u64);
+                    ctx.transitions(seqs.iter().map(|s| s.len() as u64).sum());
+                    ctx.nontrivial();
+                    ctx.outcome(crate::ctx::fnv_str(&format!("routes {start}")));
+                    if let Some((site, sig, det)) = found {
+                        ctx.violation(&site, &format!("[set built by a sequence of set operations] {sig}"), json!({"ontology": f4.to_json(), "case": det}));
+                    }
+                    if let Some(p) = panicked {
+                        ctx.violation("HpoSet::similarity", "[set built by a sequence of set operations] panics", json!({"ontology": f4.to_json(), "case": p}));
+                    }
+                    ctx.sample(|| json!({"start": start_name, "sequences": seqs.len()}));
+                }
+            }
+            other => ctx.violation("Ontology::from_bytes", "cannot decode a file laid out as documented", json!({"facts": f4.to_json(), "observed": format!("{:?}", other.map(|r| r.map(|_| ())))})),
+        }
+    }
+
     // ---- (last, because of the garbage it leaves in the allocator) sets around the 16-bit size border: the
     // documented combinations for |A| up to 65 535 with |B| in {1, 2, 4} and the transposed shapes
     {
